@@ -92,7 +92,7 @@ def multi_character_names(ctx, n):
     ctx.ensure_eq('formal_inverse', rep.element(W.formal_inverse(["s1", "t22"], simple=False), parse_simple=False), Bi @ Ai, tol=1e-6)
 
 
-DERIVED = ["copy", "conjugate", "dual", "compose", "tensor_product", "symmetric_square", "gln_adjoint", "sln_adjoint", "subgroup", "subgroup_no_inverse",
+DERIVED = ["copy", "conjugate", "dual", "compose", "tensor_product", "tensor_product_two_factors", "symmetric_square", "gln_adjoint", "sln_adjoint", "subgroup", "subgroup_no_inverse",
            "projective", "hyperbolic"]
 
 
@@ -145,6 +145,19 @@ def derived_representations(ctx, kind, n):
     elif kind == "tensor_product":
         new = rep.tensor_product(rep)
         F = lambda M: np.array([[M[i // n, k // n] * M[i % n, k % n] for k in range(n * n)] for i in range(n * n)], dtype=object if ctx.mode == 'sym' else float)
+    elif kind == "tensor_product_two_factors":
+        # a second representation of the same group whose generators were assigned in the other order (b before a)
+        C2, D2 = gl(ctx, 'C', n), gl(ctx, 'D', n)
+        rep2 = Representation()
+        rep2["b"] = np.array(D2, copy=True)
+        rep2["a"] = np.array(C2, copy=True)
+        mats2 = {"a": C2, "b": D2, "A": inv(C2), "B": inv(D2)}
+        new = rep.tensor_product(rep2)
+        for w in words:
+            M1, M2 = spec_image(mats, w, one), spec_image(mats2, w, one)
+            want = np.array([[M1[i // n, k // n] * M2[i % n, k % n] for k in range(n * n)] for i in range(n * n)], dtype=object if ctx.mode == 'sym' else float)
+            ctx.ensure_eq(f'tensor_word_{w or "empty"}', new[w], want, tol=1e-6)
+        return
     elif kind == "symmetric_square":
         new = rep.symmetric_square()
         F = None
